@@ -169,6 +169,24 @@ func crlBehaviours() []crlBehaviour {
 	withDelta("delta-no-next-update", true, false, func(w *crlWorld, b, d *pki.CRLSpec) { d.NextUpdate = time.Time{} })
 	withDelta("delta-unknown-critical-ext", true, false, func(w *crlWorld, b, d *pki.CRLSpec) { d.UnknownCrit = true })
 	withDelta("base-lists-cert+delta-clean", false, true, func(w *crlWorld, b, d *pki.CRLSpec) { b.Entries = []pki.CRLEntry{entry(w)} })
+	// CRL number 0 is a number like any other (a CA's first CRL): its delta counts
+	withDelta("base-number-0+delta-lists-cert", false, true, func(w *crlWorld, b, d *pki.CRLSpec) {
+		b.Number, d.Number = 0, 1
+		i := int64(0)
+		d.DeltaInd = &i
+		d.Entries = []pki.CRLEntry{entry(w)}
+	})
+	withDelta("delta-wrong-signer-over-base-number-0", true, false, func(w *crlWorld, b, d *pki.CRLSpec) {
+		b.Number, d.Number = 0, 1
+		i := int64(0)
+		d.DeltaInd = &i
+		d.Signer = w.otherKey
+	})
+	withDelta("base-number-0+delta-clean", false, false, func(w *crlWorld, b, d *pki.CRLSpec) {
+		b.Number, d.Number = 0, 1
+		i := int64(0)
+		d.DeltaInd = &i
+	})
 	// three unrelated entries in the base (crypto/x509 leaves spare capacity behind a three-element entry slice) and the certificate in the delta
 	withDelta("base-three-other-entries+delta-lists-cert", false, true, func(w *crlWorld, b, d *pki.CRLSpec) {
 		for k := int64(0); k < 3; k++ {
